@@ -122,10 +122,16 @@ func (s *Service) Handle(ctx context.Context, conn net.Conn) error {
 
 	rcvLine := make(chan string)
 
+	// the pump goroutine below ends with the connection
+	done := make(chan struct{})
+	defer close(done)
+
 	// Wait for a message and send it into the eventbus
 	go func() {
 		for {
 			select {
+			case <-done:
+				return
 			case message := <-s.receiveChan:
 				header := []event.Option{}
 
